@@ -306,7 +306,7 @@ func Run(c *vh.Ctx) {
 	wg.Wait()
 	if c.Replay == "" {
 		for _, g := range [][2]any{{"cases_pkg", 1000}, {"cases_oci", 500}, {"cases_probe", 1000}, {"cases_ctrl", 500}, {"render_ok", 300}, {"render_err", 300}, {"load_err", 100}, {"validate_err", 100},
-			{"cli_validate_err", 100}, {"cli_tree_ok", 50}, {"oci_import_ok", 100}, {"oci_import_err", 100}, {"probe_evaluations", 1000}, {"probe_parse_err", 50}, {"ctrl_hostile_status_set", 500},
+			{"cli_validate_err", 100}, {"cli_tree_ok", 20}, {"oci_import_ok", 100}, {"oci_import_err", 100}, {"probe_evaluations", 1000}, {"probe_parse_err", 50}, {"ctrl_hostile_status_set", 500},
 			{"ctrl_objectset_cases", 100}, {"ctrl_objecttemplate_cases", 100}, {"ctrl_package_cases", 100}, {"ctrl_objectdeployment_cases", 100}} {
 			c.GateCount(g[0].(string), int64(g[1].(int)))
 		}
